@@ -231,8 +231,15 @@ pub fn step<S: Subject>(m: &S, model: &mut FlatModel, t: &mut Tape, cx: &mut Cx)
                 _ => {
                     // a source that delivers at most `chunk` bytes per call (like a pipe or socket)
                     let chunk = 1 + t.idx(7);
-                    let mut cr = ChunkReader { data: data.clone(), pos: 0, chunk, calls: 0 };
+                    let cr = ChunkReader { data: data.clone(), pos: 0, chunk, calls: 0 };
                     cx.nt("chunked_source");
+                    // sometimes every k-th call is interrupted first (the byte-access contract
+                    // says interruptions are retried: the transfer looks the same)
+                    let every = if t.chance(1, 3) { 1 + t.idx(3) } else { 0 };
+                    if every > 0 {
+                        cx.nt("interrupted_source");
+                    }
+                    let mut cr = Interrupting { inner: cr, every, calls: 0, pending: false };
                     if exact {
                         r_ex = Some(m.read_exact_volatile_from(ga, &mut cr, count));
                         r_up = None;
@@ -240,7 +247,7 @@ pub fn step<S: Subject>(m: &S, model: &mut FlatModel, t: &mut Tape, cx: &mut Cx)
                         r_up = Some(m.read_volatile_from(ga, &mut cr, count));
                         r_ex = None;
                     }
-                    consumed = cr.pos;
+                    consumed = cr.inner.pos;
                 }
             }
             if run == 0 {
@@ -445,6 +452,28 @@ pub fn step<S: Subject>(m: &S, model: &mut FlatModel, t: &mut Tape, cx: &mut Cx)
     Ok(())
 }
 
+/// A chunked source whose every `every`-th call fails once with `Interrupted` before it delivers.
+struct Interrupting {
+    inner: ChunkReader,
+    every: usize,
+    calls: usize,
+    pending: bool,
+}
+
+impl vm_memory::ReadVolatile for Interrupting {
+    fn read_volatile<B: vm_memory::bitmap::BitmapSlice>(&mut self, buf: &mut vm_memory::VolatileSlice<B>) -> Result<usize, vm_memory::VolatileMemoryError> {
+        if self.every > 0 && !self.pending {
+            self.calls += 1;
+            if self.calls % self.every == 0 {
+                self.pending = true;
+                return Err(vm_memory::VolatileMemoryError::IOError(std::io::Error::from(std::io::ErrorKind::Interrupted)));
+            }
+        }
+        self.pending = false;
+        self.inner.read_volatile(buf)
+    }
+}
+
 fn history<S: Subject>(m: &S, lay: &Layout, files: &[Option<(std::fs::File, u64)>], t: &mut Tape, cx: &mut Cx) -> Result<(), String> {
     note!(cx, "{} layout {}", m.kind(), lay.describe());
     let fill = |ri: usize, o: usize| (ri as u8).wrapping_mul(37).wrapping_add((o as u8).wrapping_mul(11)).wrapping_add(1);
@@ -468,6 +497,35 @@ fn history<S: Subject>(m: &S, lay: &Layout, files: &[Option<(std::fs::File, u64)
 
 fn run_mmap(t: &mut Tape, cx: &mut Cx) -> Result<(), String> {
     let lay = gen_layout(t, 4, TopMode::Mmap, true);
+    if t.chance(1, 4) {
+        // the same layout reached by removing extra regions from a superset (a collection is a
+        // collection however it was built)
+        use vm_memory::{GuestMemoryMmap, GuestRegionMmap};
+        let mut all = lay.regs.clone();
+        let mut extras = Vec::new();
+        for _ in 0..(1 + t.idx(3)) {
+            let slot = t.idx(all.len() + 1);
+            let lo = if slot == 0 { 0u128 } else { all[slot - 1].0 as u128 + all[slot - 1].1 as u128 };
+            let hi = if slot == all.len() { (1u128 << 64) - 1 } else { all[slot].0 as u128 };
+            if hi <= lo {
+                continue;
+            }
+            let len = (1 + t.below(8) as u128).min(hi - lo);
+            let start = if t.flag() { lo } else { hi - len };
+            all.insert(slot, (start as u64, len as u64));
+            extras.push((start as u64, len as u64));
+        }
+        let regions: Result<Vec<_>, String> = all.iter().map(|&(s, l)| GuestRegionMmap::<()>::from_range(GuestAddress(s), l as usize, None).map_err(|e| format!("from_range: {:?}", e))).collect();
+        let mut m = GuestMemoryMmap::from_regions(regions?).map_err(|e| format!("from_regions({:x?}): {:?}", all, e))?;
+        note!(cx, "superset {:x?}, removing {:x?}", all, extras);
+        while !extras.is_empty() {
+            let (s, l) = extras.remove(t.idx(extras.len()));
+            let (nm, _r) = m.remove_region(GuestAddress(s), l).map_err(|e| format!("remove_region({:#x},{}): {:?}", s, l, e))?;
+            m = nm;
+        }
+        cx.nt("built_by_remove_region");
+        return history(&m, &lay, &[], t, cx);
+    }
     let subj = build_mmap_kinds::<()>(&lay, t, 1)?;
     history(&subj.mem, &lay, &subj.files, t, cx)
 }
